@@ -12,7 +12,7 @@
     slice is within its 4·len-byte chunk).
   Classes: modelled (a theorem covers it) · unreachable (by construction, one-line reason) ·
   external (OS clock / random source) · api-misuse (local caller passes an IPv6 address) ·
-  actor-death (only after an actor panic) · remote-reachable (see C17: repaired) · modelled-later.
+  actor-death (only after an actor panic) · modelled-later (counters of C20).
 -/
 import MainlineModel.Lemmas.KrpcLemmas
 import MainlineModel.Gen.PanicSites
@@ -92,12 +92,11 @@ def classified : List (String × String × String) := [
   ("src/core.rs::supports_signed_peers::slice#2", "unreachable", "fixed ranges of 4-byte arrays"),
   ("src/core.rs::supports_signed_peers::slice#3", "unreachable", "fixed ranges of 4-byte arrays"),
   ("src/core.rs::supports_signed_peers::slice#4", "unreachable", "fixed ranges of 4-byte arrays"),
-  ("src/core/put_query.rs::success::narrow#1", "modelled-later", "u8 tally (C08)"),
-  ("src/core/put_query.rs::error::index#1", "modelled-later", "u8 tally and indices from position() (C08)"),
-  ("src/core/put_query.rs::error::narrow#1", "modelled-later", "u8 tally and indices from position() (C08)"),
-  ("src/core/put_query.rs::error::index#2", "modelled-later", "u8 tally and indices from position() (C08)"),
-  ("src/core/put_query.rs::error::index#3", "modelled-later", "u8 tally and indices from position() (C08)"),
-  ("src/core/put_query.rs::majority_nodes_rejected_put_mutable::castu8#1", "modelled-later", "len/2+1 cast to u8 (C08)"),
+  ("src/core/put_query.rs::success::narrow#1", "modelled", "PutQuery.success: usize tally after the fix (C08.stored_counts_acks, C08.tally_width)"),
+  ("src/core/put_query.rs::error::index#1", "modelled", "PutQuery.error: usize tally; indices come from position() and the bubble loop keeps 0 < i (C08.tally_counts_errors)"),
+  ("src/core/put_query.rs::error::narrow#1", "modelled", "PutQuery.error: usize tally; indices come from position() and the bubble loop keeps 0 < i (C08.tally_counts_errors)"),
+  ("src/core/put_query.rs::error::index#2", "modelled", "PutQuery.error: usize tally; indices come from position() and the bubble loop keeps 0 < i (C08.tally_counts_errors)"),
+  ("src/core/put_query.rs::error::index#3", "modelled", "PutQuery.error: usize tally; indices come from position() and the bubble loop keeps 0 < i (C08.tally_counts_errors)"),
   ("src/core/server.rs::new::expect#1", "unreachable", "NonZeroUsize::new of non-zero constants"),
   ("src/core/server.rs::new::expect#2", "unreachable", "NonZeroUsize::new of non-zero constants"),
   ("src/core/server.rs::new::expect#3", "unreachable", "NonZeroUsize::new of non-zero constants"),
@@ -116,9 +115,9 @@ def classified : List (String × String × String) := [
   ("src/dht.rs::info::expect#1", "actor-death", "as above"),
   ("src/dht.rs::to_bootstrap::expect#1", "actor-death", "as above"),
   ("src/dht.rs::find_node::expect#1", "actor-death", "as above"),
-  ("src/dht.rs::announce_peer::unreachable#1", "remote-reachable", "PutError::Concurrency for an announce (C17 / C05 facade clause)"),
-  ("src/dht.rs::announce_signed_peer::unreachable#1", "remote-reachable", "as above"),
-  ("src/dht.rs::put_immutable::unreachable#1", "remote-reachable", "as above"),
+  ("src/dht.rs::announce_peer::unreachable#1", "api-misuse", "PutError::Concurrency for a non-mutable put: PutQuery::check never returns it (C08.non_mutable_never_concurrency) and check_concurrency_errors only applies to PutMutable; left: the local caller announces on an info_hash equal to the target of its own in-flight mutable put (callers are parked per target)"),
+  ("src/dht.rs::announce_signed_peer::unreachable#1", "api-misuse", "as above (C08.non_mutable_never_concurrency)"),
+  ("src/dht.rs::put_immutable::unreachable#1", "api-misuse", "as above (C08.non_mutable_never_concurrency)"),
   ("src/dht.rs::get_closest_nodes::expect#1", "actor-death", "as above"),
   ("src/dht.rs::put::expect#1", "actor-death", "as above"),
   ("src/dht.rs::send::expect#1", "actor-death", "as above"),
@@ -126,9 +125,9 @@ def classified : List (String × String × String) := [
   ("src/dht/async_dht.rs::info::expect#1", "actor-death", "as dht.rs"),
   ("src/dht/async_dht.rs::to_bootstrap::expect#1", "actor-death", "as dht.rs"),
   ("src/dht/async_dht.rs::find_node::expect#1", "actor-death", "as dht.rs"),
-  ("src/dht/async_dht.rs::announce_peer::unreachable#1", "remote-reachable", "as dht.rs"),
-  ("src/dht/async_dht.rs::announce_signed_peer::unreachable#1", "remote-reachable", "as dht.rs"),
-  ("src/dht/async_dht.rs::put_immutable::unreachable#1", "remote-reachable", "as dht.rs"),
+  ("src/dht/async_dht.rs::announce_peer::unreachable#1", "api-misuse", "as dht.rs (C08.non_mutable_never_concurrency)"),
+  ("src/dht/async_dht.rs::announce_signed_peer::unreachable#1", "api-misuse", "as dht.rs (C08.non_mutable_never_concurrency)"),
+  ("src/dht/async_dht.rs::put_immutable::unreachable#1", "api-misuse", "as dht.rs (C08.non_mutable_never_concurrency)"),
   ("src/dht/async_dht.rs::get_closest_nodes::expect#1", "actor-death", "as dht.rs"),
   ("src/dht/async_dht.rs::put::expect#1", "actor-death", "as dht.rs")
 ]
